@@ -9,7 +9,7 @@ case lines (after the kind `quote`):
     esc <bash|ash> <bl> <args>      hush <bl> <args>      split <line>
     <args> = . | item{,item};  item = s:<hex> | p:<hex> | r:<hex> | t:<name> | d:<name>:<hex> | o
 """
-import os, subprocess, sys
+import os, subprocess, sys, tempfile
 
 import tbot
 
@@ -121,10 +121,17 @@ def locales():
     return ["C.UTF-8", "C"] if tier() == "thorough" else ["C.UTF-8"]
 
 
+_CWD = None
+
+
 def shell_words(argv, line: bytes, lc):
-    """argument vector the shell derives from `set -- <line>`; None on a syntax error"""
+    """argument vector the shell derives from `set -- <line>`; None on a syntax error.  Runs in an
+    empty scratch directory with an empty PATH (belt and braces: only lines the model accepts get here)."""
+    global _CWD
+    if _CWD is None:
+        _CWD = tempfile.mkdtemp(prefix="quote-shell-")
     p = subprocess.run(argv + ["-c", HELPER, "_", line], stdin=subprocess.DEVNULL, stdout=subprocess.PIPE,
-                       stderr=subprocess.DEVNULL, env={"LC_ALL": lc, "PATH": "/nonexistent"}, timeout=10)
+                       stderr=subprocess.DEVNULL, env={"LC_ALL": lc, "PATH": "/nonexistent"}, timeout=10, cwd=_CWD)
     if p.returncode != 0:
         return None
     parts = p.stdout.split(b"\0")
